@@ -5,8 +5,9 @@ Engine E2: a base AUTOUGH2 model and a base TOUGH2 model are built in memory on 
 geometry (one atmosphere block); a configuration is the base plus a set of atomic deviations (section
 present/absent, one more generator of some type, a MOP digit, MP, simulator string, SHORT subset, history
 list representation, solver type, file name, built-in-memory vs read-from-file, method vs type setter).
-The quick tier enumerates the base and every single deviation (plus the crossed MOP(10) x MOP(23) x
-simulator family block); the thorough tier every compatible pair.  The export part crosses rectangular
+The quick tier enumerates the base and every single deviation (plus the crossed blocks MOP(10) x MOP(23) x
+simulator family, every MOP single x MP, every MOP single x no-SOLVR); the thorough tier every compatible pair
+(MOP deviations in pairs only at the positions the converters treat).  The export part crosses rectangular
 geometries x atmosphere types x block orders, every block position x boundary volumes, every EOS x
 recognition route, and one generator of every type in every block.
 
@@ -32,7 +33,8 @@ RULE = ('conversion: base model (AUTOUGH2 for ->TOUGH2, TOUGH2 for ->AUTOUGH2) p
         'of the 36 types in 3 placements (new name / duplicate (block,name) after / before the original), every MOP '
         'position 1..24 x digit 0..9, MP, simulator family x EOS suffix, every SHORT subset x frequency, every '
         'history representation (absent/objects/bare names)^3, solver types, file names, read-from-file origin, '
-        'type-setter route; MOP pairs only over the positions the converters treat; export: 27 rectangular '
+        'type-setter route; in pairs a MOP deviation is taken only from the positions the converters treat '
+        '(10,12,14,16,17,20,21,22,23,24), the other 14 positions are singles and crossed with MP; export: 27 rectangular '
         'geometries x 3 atmosphere types x 3 block orders x 2 grid orders, every block position x boundary volumes, '
         '6 EOS x recognition routes x 5 simulator names, every generator type x every block.  A case is non-trivial '
         'when the call under test ran on a model that differs from every other case (key = direction + atom set, or '
@@ -41,8 +43,9 @@ ASSUMPTIONS = [
     'reference lists of TOUGH2 / convertible / AUTOUGH2-only generator types, the option (MOP) rules and the Waiwera '
     'EOS / unsupported-generator tables are those of ref/convmodel.py (TOUGH2 user guide record types; the '
     'rules the converters announce in their own warnings)',
-    'a file round trip of the converted model is compared field by field, and a field is compared only when the '
-    'same field of the UNconverted model survives its own round trip (defects of plain write/read belong to C01)',
+    'a file round trip of the converted model is compared field by field; a difference in a field is reported only '
+    'when the same field of the UNconverted model survives its own round trip (defects of plain write/read belong '
+    'to C01; on the current tree this excuses only INCON without a grid)',
     'history lists holding bare names while the grid holds those blocks are outside the documented contract '
     '(history_block documentation): the conversion may keep or discard them, it must not fail',
     'a SHORT section in a TOUGH2 model and bare-name SHORT items are not generated (the reader cannot produce them)',
@@ -57,7 +60,8 @@ ASSUMPTIONS = [
 BOUNDS = {'quick': {'deviations': 'k <= 1 (+ MOP10 x MOP23 x simulator family block, + MP x every MOP single, '
                                   '+ no-SOLVR x every MOP single for ->AUTOUGH2)',
                     'export_boundary_geometries': 4, 'export_generator_pairs': 'none'},
-          'thorough': {'deviations': 'k <= 2 (MOP x MOP pairs over converter positions 10,12,14,16,17,20,21,22,23,24)',
+          'thorough': {'deviations': 'k <= 2 (in pairs, MOP deviations only at converter positions '
+                                     '10,12,14,16,17,20,21,22,23,24), plus the quick crossed blocks',
                        'export_boundary_geometries': 27, 'export_generator_pairs': 'all ordered type pairs, 2 placements'}}
 TECHNIQUE = ('deviation-bounded exhaustive enumeration of model configurations on the real converters and exporter, '
              'against a clause-by-clause reference model; write -> read of every converted model')
@@ -91,13 +95,6 @@ def num(x):
         except Exception:
             return repr(x)
     return x
-
-
-def trim(xs):
-    xs = [num(x) for x in xs]
-    while xs and xs[-1] is None:
-        xs.pop()
-    return tuple(xs)
 
 
 def cval(v):
@@ -534,8 +531,6 @@ def compatible(direction, atoms):
         return False
     if 'SHORT' in secs and 'short' in kinds:
         return False
-    if 'MULTI' in secs and 'sim' in kinds:
-        pass
     return True
 
 
@@ -622,10 +617,9 @@ def configs(direction, tier):
                         cfg.append(('mop', 23, d23))
                     add(cfg)
     if tier == 'thorough':
-        for i, a in enumerate(atoms):
-            for b in atoms[i + 1:]:
-                if a[0] == 'mop' and b[0] == 'mop' and not (is_conv_mop(a) and is_conv_mop(b)):
-                    continue
+        pa = [a for a in atoms if a[0] != 'mop' or is_conv_mop(a)]
+        for i, a in enumerate(pa):
+            for b in pa[i + 1:]:
                 add((a, b))
     return out
 
@@ -923,12 +917,11 @@ def file_clauses(direction, text, post, meta, V):
 def exc_class(direction, atoms, site, etype, fn):
     """Smallest sub-configuration (base, then single atoms) that raises the same thing."""
     def raises(sub):
-        try:
-            with core.timelimit(CASE_SECONDS):
-                dat, meta = build(direction, sub)
-                run_conversion(dat, meta, direction)
+        try:        # runs under the caller's time limit (limits do not nest)
+            dat, meta = build(direction, sub)
+            run_conversion(dat, meta, direction)
         except core.CaseTimeout:
-            return False
+            raise
         except Exception as e:
             return type(e).__name__ == etype and lib_site(e) == fn
         return False
@@ -968,19 +961,25 @@ def conv_case(direction, atoms):
         if sig not in [s for s, w in out]:
             out.append((sig, what + (' [via the type setter]' if meta['route'] == 'setter' else '')))
     pre = canon(dat)
-    # guard: what of the unconverted model survives its own round trip
-    guard_ok = {}
-    try:
-        dat0, _m = build(direction, atoms)
-        fn0 = 'c20a.dat'
-        _t, back0 = write_read(dat0, fn0)
-        v0, v1 = rtview(canon(dat0)), rtview(canon(back0))
-        for f in RT_FIELDS:
-            guard_ok[f] = close(v0[f], v1[f], 1e-6)
-    except core.CaseTimeout:
-        raise
-    except Exception:
-        guard_ok = None
+    memo = {}
+
+    def guard():
+        """What of the UNconverted model survives its own round trip (field -> bool), None when that round
+        trip raises.  Computed only when the converted model shows a round-trip difference."""
+        if 'g' not in memo:
+            ok = {}
+            try:
+                dat0, _m = build(direction, atoms)
+                _t, back0 = write_read(dat0, 'c20a.dat')
+                v0, v1 = rtview(canon(dat0)), rtview(canon(back0))
+                for f in RT_FIELDS:
+                    ok[f] = close(v0[f], v1[f], 1e-6)
+            except core.CaseTimeout:
+                raise
+            except Exception:
+                ok = None
+            memo['g'] = ok
+        return memo['g']
     try:
         run_conversion(dat, meta, direction)
     except core.CaseTimeout:
@@ -997,32 +996,41 @@ def conv_case(direction, atoms):
         clauses_T2A(pre, post, meta, V)
     # ---- file round trip of the converted model
     outcome = 'converted'
-    if guard_ok is None:
-        counters['rt_skipped_base_does_not_roundtrip'] = 1
-        outcome = 'converted-no-roundtrip-guard'
-    else:
-        try:
-            fname = 'c20b.dat'
-            text, back = write_read(dat, fname)
-        except core.CaseTimeout:
-            raise
-        except Exception as e:
-            V('roundtrip-raises:%s@%s' % (type(e).__name__, lib_site(e)), 'any',
-              'write/read of the converted model raised %r' % (e,))
-            return out, 'roundtrip-raised', counters
-        file_clauses(direction, text, post, meta, V)
-        after = canon(dat)          # write() may touch the object (sections, option string)
-        v0, v1 = rtview(after), rtview(canon(back))
-        for f in RT_FIELDS:
-            if not guard_ok[f]:
-                counters['rt_field_skipped_%s' % f] = counters.get('rt_field_skipped_%s' % f, 0) + 1
-                continue
-            if not close(v0[f], v1[f], 1e-6):
-                V('roundtrip', f, 'converted model does not survive write -> read in %s: written from %s, read back %s'
-                  % (f, brief(v0[f]), brief(v1[f])))
-        counters['rt_fields_compared'] = sum(1 for f in RT_FIELDS if guard_ok[f])
+    try:
+        text, back = write_read(dat, 'c20b.dat')
+    except core.CaseTimeout:
+        raise
+    except Exception as e:
+        if guard() is None:
+            counters['rt_skipped_base_does_not_roundtrip'] = 1
+            return out, 'converted-no-roundtrip-guard', counters
+        V('roundtrip-raises:%s@%s' % (type(e).__name__, lib_site(e)), 'any',
+          'write/read of the converted model raised %r' % (e,))
+        return out, 'roundtrip-raised', counters
+    file_clauses(direction, text, post, meta, V)
+    after = canon(dat)          # write() may touch the object (sections, option string)
+    v0, v1 = rtview(after), rtview(canon(back))
+    ncmp = 0
+    for f in RT_FIELDS:
+        if close(v0[f], v1[f], 1e-6):
+            ncmp += 1
+            continue
+        g = guard()
+        if g is None:
+            counters['rt_skipped_base_does_not_roundtrip'] = 1
+            outcome = 'converted-no-roundtrip-guard'
+            break
+        if not g[f]:
+            counters['rt_field_skipped_%s' % f] = counters.get('rt_field_skipped_%s' % f, 0) + 1
+            continue
+        ncmp += 1
+        V('roundtrip', f, 'converted model does not survive write -> read in %s: written from %s, read back %s'
+          % (f, brief(v0[f]), brief(v1[f])))
+    counters['rt_fields_compared'] = ncmp
     # ---- there and back: the solver class survives
-    if not meta['MP']:
+    solver_atoms = [a for a in atoms if a[0] in ('lineq', 'solver') or (a[0] == 'mop' and a[1] == 21)
+                    or (a[0] == 'sec' and a[1] in ('LINEQ', 'SOLVR'))]
+    if not meta['MP'] and (len(atoms) <= 1 or solver_atoms):
         try:
             d3, m3 = build(direction, atoms)
             c3 = canon(d3)
